@@ -77,13 +77,7 @@ const QUERIES: [(&[u8], bool, bool); 7] = [
     (&[2, b'c', b'b', 1, b'a', 0], false, false),
 ];
 
-// @harness props=C22,C07 tier=quick mem=3 t=900 fn="<SingleZoneCatalog as Catalog>::lookup,<SingleZoneCatalog as Catalog>::get,Name::eq_or_subdomain_of,<Name as PartialEq>::eq"
-//   bound="entry b.a. (NotYetLoaded or FailedToLoad, any class, any u8 tag); lookup and get of b.a., B.A., c.b.a., a., the root, b.x., cb.a. with any query class; unwind 7"
-//   sym="entry class:u16, query class:u16, kind, tag" stubs="eq_ignore_ascii_case" cbmc="--max-field-sensitivity-array-size 1024"
-#[kani::proof]
-#[kani::unwind(7)]
-#[kani::stub(<[u8]>::eq_ignore_ascii_case, eq_ic_model)]
-fn c22_single_zone_catalog() {
+fn single_zone_queries(from: usize, to: usize) {
     let eclass: u16 = kani::any();
     let qclass: u16 = kani::any();
     let failed: bool = kani::any();
@@ -94,8 +88,8 @@ fn c22_single_zone_catalog() {
         Entry::NotYetLoaded(nm(ENTRY_NAME), Class::from(eclass), tag)
     };
     let cat = core::mem::ManuallyDrop::new(SingleZoneCatalog::new(entry));
-    let mut k = 0;
-    while k < 7 {
+    let mut k = from;
+    while k < to {
         let (w, below, equal) = QUERIES[k];
         let q = core::mem::ManuallyDrop::new(nm(w));
         let l = cat.lookup(&q, Class::from(qclass));
@@ -112,4 +106,24 @@ fn c22_single_zone_catalog() {
     }
     kani::cover!(eclass == qclass && eclass == 3, "matching class CH");
     kani::cover!(eclass != qclass, "class mismatch");
+}
+
+// @harness props=C22,C07 tier=quick mem=3 t=2400 fn="<SingleZoneCatalog as Catalog>::lookup,<SingleZoneCatalog as Catalog>::get,Name::eq_or_subdomain_of,<Name as PartialEq>::eq"
+//   bound="entry b.a. (NotYetLoaded or FailedToLoad, any class, any u8 tag); lookup and get of b.a., B.A., c.b.a. with any query class; unwind 7"
+//   sym="entry class:u16, query class:u16, kind, tag" stubs="eq_ignore_ascii_case" cbmc="--max-field-sensitivity-array-size 200"
+#[kani::proof]
+#[kani::unwind(7)]
+#[kani::stub(<[u8]>::eq_ignore_ascii_case, eq_ic_model)]
+fn c22_single_zone_catalog_inside() {
+    single_zone_queries(0, 3);
+}
+
+// @harness props=C22,C07 tier=thorough mem=3 t=2400 fn="<SingleZoneCatalog as Catalog>::lookup,<SingleZoneCatalog as Catalog>::get,Name::eq_or_subdomain_of,<Name as PartialEq>::eq"
+//   bound="same entry; lookup and get of a., the root, b.x., cb.a. (names outside the zone) with any query class; unwind 7"
+//   sym="entry class:u16, query class:u16, kind, tag" stubs="eq_ignore_ascii_case" cbmc="--max-field-sensitivity-array-size 200"
+#[kani::proof]
+#[kani::unwind(7)]
+#[kani::stub(<[u8]>::eq_ignore_ascii_case, eq_ic_model)]
+fn c22_single_zone_catalog_outside() {
+    single_zone_queries(3, 7);
 }
